@@ -1147,6 +1147,42 @@ def replay_file(pid, path):
         log("recorded execution rejected at event %s: %s" % (idx, json.dumps(beh["events"][idx - 1])))
         return 1
     import subprocess
+    if isinstance(beh, dict) and beh.get("kind") in ("chain-trace", "mock-trace") and beh.get("events"):
+        module = "ChainTrace" if beh["kind"] == "chain-trace" else "MockTrace"
+        tr = os.path.join(vf.WORK, "replay_trace.ndjson")
+        open(tr, "w").write("\n".join(json.dumps(e, separators=(",", ":")) for e in beh["events"]) + "\n")
+        ok, idx, st = validate_trace(tr, "replay_trace", module)
+        if ok:
+            print("recorded execution is accepted by %s.tla" % module)
+            return 0
+        print("VIOLATION property=%s replay=%s" % (pid, path))
+        log("recorded execution rejected at event %s: %s" % (idx, json.dumps(beh["events"][min(idx, len(beh["events"])) - 1])))
+        return 1
+    if isinstance(beh, dict) and beh.get("kind") in ("generated-case", "chain-trace", "mock-trace"):
+        # a case of a generated program (or a crash without recorded events) is replayed by regenerating the program
+        # from the model and running the whole quick check again
+        log("replaying a generated case: the program is regenerated from the model and the quick check of %s is run again" % pid)
+        return run_property(pid, "quick", time.time())
+    if isinstance(beh, dict) and "steps" in beh and beh["steps"] and "ev" in beh["steps"][0]:
+        # a lifecycle behaviour (Lifecycle.tla): executed by `vh life`
+        d = os.path.join(vf.WORK, "replay_life")
+        os.makedirs(d, exist_ok=True)
+        bf = os.path.join(d, "beh.txt")
+        open(bf, "w").write('<<"REPLAY", %s>>\n' % json.dumps(json.dumps(beh)))
+        res = os.path.join(d, "result.json")
+        mv = max([x for st_ in beh["steps"] for x in st_.get("dropped", []) if x < 1000] + [st_.get("new", 0) for st_ in beh["steps"]] + [6])
+        p = subprocess.run([vf.VH, "life", bf, res, "--progress", os.path.join(d, "progress"), "--max-inst", "3", "--max-vals", str(mv)], cwd=vf.VERIF, stderr=subprocess.DEVNULL)
+        if p.returncode != 0 or not os.path.exists(res):
+            print("VIOLATION property=%s replay=%s" % (pid, path))
+            log("the behaviour killed the harness process (exit %s): a panic while unwinding" % p.returncode)
+            return 1
+        r = json.load(open(res))
+        if r.get("divergences"):
+            print("VIOLATION property=%s replay=%s" % (pid, path))
+            log(json.dumps(r["divergences"][0])[:1000])
+            return 1
+        print("replayed without divergence")
+        return 0
     res = os.path.join(vf.WORK, "replay_result.json")
     p = subprocess.run([vf.VH, "replay", res, "--raw"], input=json.dumps(beh) + "\n", text=True, cwd=vf.VERIF)
     if p.returncode == 2:
